@@ -4,8 +4,9 @@
    ledger/eval/cow.go, eval.go, ledger/apply/payment.go, keyreg.go, apply.go); the property in
    closed form: model/EvalSpec.v ([bwp] = balance with pending rewards, [tot_at] = its sum over
    a universe U of accounts seen through the overlay).  Transaction types modelled: payment
-   (incl. CloseRemainderTo), key registration, with fee and rekey; application calls, asset
-   transactions, heartbeats and state proofs are not part of this version. *)
+   (incl. CloseRemainderTo), key registration, asset config / transfer (opt-in, clawback,
+   close-out) / freeze, all with fee and rekey; application calls (and with them inner
+   transactions), heartbeats and state proofs are EXCLUDED from this version. *)
 From Coq Require Import NArith ZArith List Bool String.
 Import ListNotations.
 From Verif.lib Require Import Term.
@@ -22,8 +23,18 @@ Theorem C18_move_conserves : forall E U from to amt fr tr c c' r,
 Proof. exact move_conserves. Qed.
 Print Assumptions C18_move_conserves.
 
-(* applyTransaction = takeFee (fee to the fee sink) + Rekey + Payment (with close) or Keyreg
-   (a status switch to NotParticipating never drops pending rewards: takeFee has settled them) *)
+(* the two error exits of Move: an overspend (any failure of the debit side) leaves the cow
+   untouched; a failure of the credit side leaves the debit written -- the caller must drop
+   the cow, which TransactionGroup does (C19) *)
+Theorem C18_move_error_exits : forall E from to amt fr tr c c' e,
+  move E from to amt fr tr c = (c', Err e) ->
+  c' = c \/ (e <> E_OVERSPEND /\ exists r1, move_side E true from amt fr c = (c', Ok r1)).
+Proof. exact move_error_exits. Qed.
+Print Assumptions C18_move_error_exits.
+
+(* applyTransaction = takeFee (fee to the fee sink) + Rekey + Payment (with close) / Keyreg /
+   AssetConfig / AssetTransfer / AssetFreeze (a status switch to NotParticipating never drops
+   pending rewards: takeFee has settled them; asset transactions only touch counters) *)
 Theorem C18_txn_conserves : forall E U tx ctr c c' ad,
   env_ok E -> NoDup U -> tx_ok E U tx -> wf_cow (e_lvl E) c ->
   apply_transaction E tx ctr c = (c', Ok ad) ->
@@ -78,6 +89,13 @@ Theorem C18_block_conserves : forall E b prevlvl ru gs expired absent proposer p
   wf_cow (e_lvl E) (ev_cow ev).
 Proof. exact block_conserves_thm. Qed.
 Print Assumptions C18_block_conserves.
+
+(* every history: any number of blocks, each evaluated on the ledger its predecessor left *)
+Theorem C18_history_conserves : forall P U b l ds b' l',
+  NoDup U -> run P U b l ds b' l' -> wf_cow l (base_cow b) ->
+  tot_at P l' U (base_cow b') = tot_at P l U (base_cow b) /\ wf_cow l' (base_cow b').
+Proof. exact history_conserves. Qed.
+Print Assumptions C18_history_conserves.
 
 (* the premise about the expired list cannot be dropped: the faithful model of
    resetExpiredOnlineAccountsParticipationKeys creates 200 microAlgos of pending rewards when
